@@ -34,10 +34,16 @@ pub fn parse_ignore(source: &Path, config: &Config) -> Result<Option<Gitignore>>
         // would block forever.
         // (A stat that fails for any reason other than the file being
         // absent must not quietly switch the filter off.)
-        let is_file = match gifile.metadata() {
-            Ok(m) => m.is_file(),
-            Err(e) if e.kind() == ErrorKind::NotFound => false,
-            Err(e) => return Err(e.into()),
+        // A source that is not a directory has no ignore file of its
+        // own (and asking for one would fail with ENOTDIR).
+        let is_file = if !is_dir(source)? {
+            false
+        } else {
+            match gifile.metadata() {
+                Ok(m) => m.is_file(),
+                Err(e) if e.kind() == ErrorKind::NotFound => false,
+                Err(e) => return Err(e.into()),
+            }
         };
         if is_file {
             // add() reports lines it could not read or parse (and
